@@ -188,6 +188,17 @@ async def run_sites(vectors, report, tier):
                 judge("has_regular_output_under_single", d, ["x"] if wf.has_regular_output_under(d) else [],
                       ["x"] if lab in exp else [])
         cm.__exit__(None, None, None)
+    # the same for the justification of a directory match by a static file below it (a boolean over
+    # the whole database: exactness needs databases with a single static file)
+    for lab in labels:
+        cm, db, wf, plan = await new_wf()
+        async with db:
+            wf.declare_static_files(plan, [lab])
+        async with db:
+            for d, exp in dirs:
+                judge("is_justified_dir_contains_static_single", d, ["x"] if wf._is_justified_without_node(d, []) else [],
+                      ["x"] if lab in exp else [])
+        cm.__exit__(None, None, None)
     return nq, per_site, len(labels), len(dirs)
 
 
